@@ -42,11 +42,11 @@ CLAIMS = {
          "valid programs and their mutations; panics, empty error lists, empty error texts and out-of-source positions are failing inputs."),
  "C04": ("Theorem C04_roundtrip (induction on the tree with continuation lemmas for the left-associative loops and an 'eventually, for all sufficient fuel' "
          "composition): for EVERY tree of the operator grammar - identifiers, prefix runs of any length, * / %, + -, the seven relations, && / || chains of "
-         "any length, ?:, explicit parentheses - the token rendering with minimal parentheses under CEL's precedence table parses (p_expr, any sufficient "
-         "fuel) to exactly the tree's AST: tighter operators bind first, equal levels associate to the left, logical chains build the balanced tree with the "
+         "any length, ?:, explicit parentheses - the token rendering with minimal parentheses under CEL's precedence table parses - parse_tokens, i.e. with the fuel "
+         "compile itself uses: an explicit fuel bound per tree is proved and shown to fit under 16*(tokens+2) - to exactly the tree's AST: tighter operators bind first, equal levels associate to the left, logical chains build the balanced tree with the "
          "operands in source order, parentheses group. Also proved: the balanced-tree leaf order for every chain length, prefix-run parity, macros expand "
          "around receiver and arguments. PARTIAL in this: postfix forms (select, index, calls), literals and collection literals are outside the round-trip "
-         "theorem, and the concrete fuel of compile is not proved sufficient. Tied to the code per case: the run checks on every operator tree (all trees "
+         "theorem. Tied to the code per case: the run checks on every operator tree (all trees "
          "with <= 2 operators in both renderings, random deeper ones, chains to 24, prefix runs to 7, mixed left-associative chains) that the real parser's "
          "AST is the tree's AST and that the model's lexer turns the source text into exactly the rendering the theorem is about; all other trees "
          "(postfix, literals, collections, nested macros, chains 2-64) are compared between the real parser, the model's parser and the expected tree."),
